@@ -95,7 +95,7 @@ package api
 // (minLeftBufferShift is a package variable that is only initialised, to 1)
 //@ func realloc props C17
 //@   requires buf != nil && minLeftBufferShift == 1
-//@   modifies *buf
+//@   modifies *buf, $pooled
 //@   ensures len(*buf) == old(len(*buf)) && cap(*buf) > len(*buf)
 //@   ensures forall k int :: 0 <= k && k < len(*buf) ==> (*buf)[k] == old((*buf)[k])
 //@   ensures base(*buf) == old(base(*buf)) || fresh(*buf)
@@ -107,14 +107,14 @@ package api
 
 //@ func (*StreamDecoder).setErr props C17
 //@   requires self != nil
-//@   modifies self.err, self.buf
+//@   modifies self.err, self.buf, $pooled
 //@   ensures self.err == err && self.buf == nil
 
 // refill: slides the unread bytes to the front and appends what one Read
 // delivers; the buffer stays in sync with the stream and InputOffset is unchanged.
 //@ func (*StreamDecoder).refill props C17
 //@   requires sdOK(self) && sdSync(self) && self.r != nil && minLeftBufferShift == 1 && $rpos >= 0 && $rpos <= 4611686018427387904
-//@   modifies self.scanned, self.buf, self.scanp, self.buf[_], $rpos
+//@   modifies self.scanned, self.buf, self.scanp, self.buf[_], $rpos, $pooled
 //@   ensures sdOK(self) && self.scanp == 0 && $rpos >= old($rpos) && $rpos <= 4611686018427387904
 //@   ensures int(self.scanned) == old(int(self.scanned) + self.scanp)
 //@   ensures sdSync(self)
@@ -128,7 +128,7 @@ package api
 // Reader's error once everything buffered is white space.  InputOffset never moves backwards.
 //@ func (*StreamDecoder).peek props C17
 //@   requires sdReady(self)
-//@   modifies self.scanned, self.buf, self.scanp, self.buf[_], $rpos, self.err
+//@   modifies self.scanned, self.buf, self.scanp, self.buf[_], $rpos, self.err, $pooled
 //@   ensures r1 == nil ==> (sdReady(self) && self.err == old(self.err) && self.scanp < len(self.buf) && r0 == self.buf[self.scanp] && !isSpace(r0))
 //@   ensures r1 != nil ==> (self.err == r1 && self.buf == nil)
 //@   ensures r1 == nil ==> (base(self.buf) == old(base(self.buf)) || fresh(self.buf))
@@ -139,11 +139,11 @@ package api
 //@   loop 0: invariant self.err == old(self.err) && self.r == old(self.r) && int(self.scanned) + self.scanp >= old(int(self.scanned) + self.scanp)
 //@   loop 0: invariant (base(self.buf) == old(base(self.buf)) || fresh(self.buf))
 //@   loop 0: invariant (base(self.buf) == pre(base(self.buf)) || newer(self.buf))
-//@   loop 0: modifies self.scanned, self.buf, self.scanp, self.buf[_], $rpos, self.err
+//@   loop 0: modifies self.scanned, self.buf, self.scanp, self.buf[_], $rpos, self.err, $pooled
 
 //@ func (*StreamDecoder).More props C17
 //@   requires sdReady(self)
-//@   modifies self.scanned, self.buf, self.scanp, self.buf[_], $rpos, self.err
+//@   modifies self.scanned, self.buf, self.scanp, self.buf[_], $rpos, self.err, $pooled
 //@   ensures old(self.err) != nil ==> (!result && self.err == old(self.err) && same(self.buf, old(self.buf)) && self.scanned == old(self.scanned) && self.scanp == old(self.scanp) && $rpos == old($rpos))
 //@   ensures result ==> (sdReady(self) && self.err == nil && self.scanp < len(self.buf) && !isSpace(self.buf[self.scanp]) && self.buf[self.scanp] != ']' && self.buf[self.scanp] != '}')
 //@   ensures result ==> int(self.scanned) + self.scanp >= old(int(self.scanned) + self.scanp)
@@ -154,14 +154,14 @@ package api
 // readMore: appends at least one more non-space... byte run to the buffer (true) or records the Reader's error (false).
 //@ func (*StreamDecoder).readMore props C17
 //@   requires sdReady(self)
-//@   modifies self.buf, self.scanp, self.buf[_], $rpos, self.err
+//@   modifies self.buf, self.scanp, self.buf[_], $rpos, self.err, $pooled
 //@   ensures old(self.err) != nil ==> (!result && self.err == old(self.err))
 //@   ensures result ==> (sdReady(self) && self.err == nil && self.scanned == old(self.scanned) && len(self.buf) > old(len(self.buf)) && (base(self.buf) == old(base(self.buf)) || fresh(self.buf)) && $rpos - len(self.buf) == old($rpos - len(self.buf)))
 //@   ensures !result ==> self.err != nil
 //@   ensures self.r == old(self.r)
 //@   loop 0: invariant sdReady(self) && self.err == nil && self.r == old(self.r) && self.scanned == old(self.scanned) && len(self.buf) >= old(len(self.buf)) && err == nil && (base(self.buf) == old(base(self.buf)) || fresh(self.buf)) && $rpos - len(self.buf) == old($rpos - len(self.buf))
 //@   loop 0: invariant (base(self.buf) == pre(base(self.buf)) || newer(self.buf))
-//@   loop 0: modifies self.buf, self.scanp, self.buf[_], $rpos, self.err
+//@   loop 0: modifies self.buf, self.scanp, self.buf[_], $rpos, self.err, $pooled
 
 //@ func (*Decoder).Decode assumed "decoder core (generated code / optdec): effects on the destination value are not modelled; only the position is written"
 //@   requires self != nil
@@ -171,7 +171,7 @@ package api
 // successful Decode consumes input (InputOffset strictly increases).
 //@ func (*StreamDecoder).Decode props C17
 //@   requires sdReady(self)
-//@   modifies self.scanned, self.buf, self.scanp, self.buf[_], $rpos, self.err, self.Decoder
+//@   modifies self.scanned, self.buf, self.scanp, self.buf[_], $rpos, self.err, $pooled, self.Decoder
 //@   ensures old(self.err) != nil ==> (err == old(self.err) && self.err == old(self.err) && same(self.buf, old(self.buf)) && self.scanned == old(self.scanned) && self.scanp == old(self.scanp) && $rpos == old($rpos))
 //@   ensures err == self.err || (err != nil && self.err != nil)
 //@   ensures err == nil ==> sdOK(self)
@@ -185,4 +185,4 @@ package api
 //@   loop 0: invariant !isSpace($rin[$rpos - len(self.buf) + s])
 //@   loop 0: invariant (base(self.buf) == old(base(self.buf)) || fresh(self.buf))
 //@   loop 0: invariant (base(self.buf) == pre(base(self.buf)) || newer(self.buf))
-//@   loop 0: modifies self.buf, self.scanp, self.buf[_], $rpos, self.err
+//@   loop 0: modifies self.buf, self.scanp, self.buf[_], $rpos, self.err, $pooled
